@@ -793,6 +793,85 @@ def rule_ensure_model(chk):
                               'property must take type, default and stride from the source' % (bad or ('', '', '')), detail_ok='%d selections: type, default and stride taken from the source' % nrun)
 
 
+def rule_initialize_model(chk):
+    """ParticleArray._initialize (what the constructor and the npz reader build arrays through) interpreted (E8, lowered Cython) on model property sets: the number of particles
+    is the largest count over the properties given - len(data) // stride for a strided one -, a property given as a single value is spread over that many particles and nothing
+    else is touched; every property is then added with the data, stride, type and default it was given (shared with C11: the npz reader hands over dictionaries)"""
+    from verif_static import emit as EM, absint as AI
+    t = M.cy(PA)
+    fn = M.find_method(t, 'ParticleArray', '_initialize')
+
+    class Spread(object):
+        def __init__(self, n):
+            self.n = n
+
+        def __mul__(self, o):
+            return ('spread over', self.n, list(o) if isinstance(o, (list, tuple)) else o)
+        __rmul__ = __mul__
+
+        def __hash__(self):
+            return id(self)
+    saved = dict((k, AI.EXTERNAL_CALLS.get(k)) for k in ('numpy.ravel', 'numpy.ones', 'numpy.asarray', 'numpy.array'))
+    AI.EXTERNAL_CALLS['numpy.ravel'] = lambda i, a, k, n, e: list(a[0]) if isinstance(a[0], (list, tuple)) else [a[0]]
+    AI.EXTERNAL_CALLS['numpy.asarray'] = AI.EXTERNAL_CALLS['numpy.array'] = lambda i, a, k, n, e: list(a[0]) if isinstance(a[0], (list, tuple)) else a[0]
+    AI.EXTERNAL_CALLS['numpy.ones'] = lambda i, a, k, n, e: Spread(a[0])
+    # (in the lowered Cython module `numpy` is both cimported and imported: the second spelling of the same functions)
+    for k_ in ('ravel', 'ones', 'asarray', 'array'):
+        saved["__import__('numpy')." + k_] = AI.EXTERNAL_CALLS.get("__import__('numpy')." + k_)
+        AI.EXTERNAL_CALLS["__import__('numpy')." + k_] = AI.EXTERNAL_CALLS['numpy.' + k_]
+    CASES = [
+        ('one particle with a strided property (dictionaries, as the npz reader passes them)',
+         {'x': {'data': [7.0]}, 'A': {'data': [1.0, 2.0, 3.0], 'stride': 3, 'type': 'double', 'default': 0.5}, 'tag': {'data': [0], 'type': 'int'}},
+         {'x': {'data': [7.0]}, 'A': {'data': [1.0, 2.0, 3.0], 'stride': 3, 'type': 'double', 'default': 0.5}, 'tag': {'data': [0], 'type': 'int'}}),
+        ('two particles, a strided property and a single value',
+         {'A': {'data': [1, 2, 3, 4, 5, 6], 'stride': 3}, 'x': {'data': [9.0]}},
+         {'A': {'data': [1, 2, 3, 4, 5, 6], 'stride': 3}, 'x': {'data': ('spread over', 2, [9.0])}}),
+        ('plain sequences, one of them a single value', {'x': [1.0, 2.0, 3.0], 'm': [5.0]},
+         {'x': {'data': [1.0, 2.0, 3.0]}, 'm': {'data': ('spread over', 3, [5.0])}}),
+        ('a dictionary without data', {'x': [1.0, 2.0], 'p': {'type': 'int', 'default': 4}}, {'x': {'data': [1.0, 2.0]}, 'p': {'type': 'int', 'default': 4}}),
+    ]
+    bad, und, nrun = None, None, 0
+    try:
+        for what, given, want in CASES:
+            it = EM.interpreter()
+            EM.model_module(it, '<pa>', t)
+            it.mods['<pa>'][1]['numpy'] = AI.External('numpy')        # however the lowered module spells its import of numpy
+            it.mods['<pa>'][1]['np'] = AI.External('numpy')
+            calls = {}
+
+            def addp(i, a, k, n, e):
+                kw = dict(k)
+                for nm_, v_ in zip(('name', 'type', 'default', 'data', 'stride'), a):
+                    kw[nm_] = v_
+                calls[kw.pop("name", repr(sorted(kw)))] = kw
+                return None
+            import copy as _cp
+            pa = EM.instance(it, '<pa>', 'ParticleArray', clear=lambda i, a, k, n, e: None, add_property=addp, align_particles=lambda i, a, k, n, e: None, name='model')
+            try:
+                EM.call(it, pa, '_initialize', **_cp.deepcopy(given))
+            except (AI.Unsupported, AI.Raised) as ex:
+                if getattr(ex, 'raised', None) is not None or isinstance(ex, AI.Raised):
+                    bad = bad or (what, 'raises %s' % ex, want)
+                    continue
+                und = '%s: %s' % (what, ex)
+                break
+            nrun += 1
+            got = dict((k_, dict((a_, b_) for a_, b_ in v_.items() if a_ != 'name')) for k_, v_ in calls.items())
+            if got != want and bad is None:
+                bad = (what, got, want)
+    finally:
+        for k, v in saved.items():
+            if v is None:
+                AI.EXTERNAL_CALLS.pop(k, None)
+            else:
+                AI.EXTERNAL_CALLS[k] = v
+    if und:
+        chk.undecided('whole-property-coverage', '_initialize:model-run', node=fn, file=PA, func='_initialize', detail='not interpretable on the model: ' + und)
+    else:
+        chk.decide(bad is None, 'whole-property-coverage', '_initialize:model-run', node=fn, file=PA, func='_initialize',
+                   detail_bad='%s: the properties are added as %s, expected %s' % (bad or ('', '', '')), detail_ok='%d model property sets' % nrun)
+
+
 def main(chk):
     chk.explanation = ('Structural coherence rules over every method of ParticleArray (Cython parse tree lowered to ast): '
                        'per-property maps kept in step on delete/rebind/insert, every sized operation scaled by the stride '
@@ -814,6 +893,7 @@ def main(chk):
     rule_count(chk, cls)
     rule_append_offsets(chk, cls)
     rule_ensure_model(chk)
+    rule_initialize_model(chk)
     # align_particles keeps its index array a permutation (rule shared with C16, which relies on it after removals)
     import importlib.util
     spec = importlib.util.spec_from_file_location('c16mod', os.path.join(os.path.dirname(os.path.abspath(__file__)), 'c16.py'))
